@@ -95,3 +95,11 @@ package actor
 //@   at call 1 of dynamic ghost cr_cb_runs = cr_cb_runs + 1
 //@   ensures at-most-one-continuation: cr_cb_runs <= old(cr_cb_runs) + 1
 //@ structural callers (*requestState).complete: (*PID).completeRequest, (*grainPID).completeRequest, (*PID).cancelInFlightRequests, (*grainPID).cancelInFlightRequests, (*grainPID).teardownInFlightRequests, completedRequestCall
+
+// (re)enabling reentrancy retunes the installed state in place: the in-flight
+// bookkeeping of requests still outstanding survives a disable/enable cycle
+//@ func installReentrancy(holder, config)
+//@   requires holder != nil
+//@   ensures an-installed-state-is-never-replaced: old(holder.p.v) != nil ==> holder.p.v == old(holder.p.v)
+//@   ensures in-flight-bookkeeping-survives: forall r *reentrancyState :: r != nil && r == (*reentrancyState)(old(holder.p.v)) ==> r.inFlightCount.v == old(r.inFlightCount.v) && r.blockingCount.v == old(r.blockingCount.v) && r.requestStates == old(r.requestStates)
+//@   ensures first-install-creates-one: old(holder.p.v) == nil && result == nil ==> holder.p.v != nil
